@@ -29,6 +29,17 @@ raises is not judged.  The statement does not say how many of the handed-over ad
 says how many it counted: i = total - additions before must lie in 0..handed over       C20|op:update(failing-source)|total-...
 and the stream continues with the first i of them as the additions made; an over-/under-count under that reading is
 reported only if no other choice of i of the handed-over unit additions explains the reported counts either.
+Thresholds are floats, or (configurations / directed histories whose threshold reads ('F', p, q) / ('D', text)) the exact
+rationals fractions.Fraction(p, q) / decimal.Decimal(text): the statement quantifies over all thresholds in (0, 1) and
+its formula floor(1/threshold) is unambiguous for them.
+Directed histories (complete lists, every listed operation examined like a transition of the searches):
+  bulk - a short prefix, ONE update() handing over D distinct new keys (D around the multiples of the bucket width and
+  beyond 2/threshold; sources that fail after the last key - generator, iterator, list holding an unhashable object, dict /
+  keyword counts with a bad count last, duck-typed mapping - and list / dict / generator / duck-typed mapping that do not
+  fail), then three ordinary adds; the size bound and the counts are judged right after the (failed) call;
+  wide - thresholds 1/n and 2/(2n+1) as float, Fraction and (finite decimals) Decimal, n dense up to a few hundred and
+  around powers of 2, 3, 5, 10: one rare key, a hot key through two bucket boundaries, examined at totals 1, w-1, w, w+1,
+  2w-2, 2w-1, 2w, 2w+1.
 Key types: most configurations use 1-character strings; 'mixed:<r>' configurations draw the keys from a fixed list
 of pairwise unequal hashable objects of different, mutually unorderable types (None, int, str, complex, tuples
 holding None, float, bytes, frozenset), rotated by r.  Histories, true counts and reported cases stay in terms of key
@@ -61,6 +72,7 @@ addition in between; they must still agree with the per-key counts     C20|read:
 """
 import collections
 import collections.abc
+import decimal
 import fractions
 import itertools
 import math
@@ -121,6 +133,18 @@ def detuple(x):
     if isinstance(x, (list, tuple)):
         return tuple(detuple(i) for i in x)
     return x
+
+
+def make_threshold(t):
+    """The threshold object for its JSON-able description: a float, ('F', p, q) = fractions.Fraction(p, q),
+    ('D', text) = decimal.Decimal(text)."""
+    if isinstance(t, (list, tuple)):
+        if t[0] == 'F':
+            return fractions.Fraction(int(t[1]), int(t[2]))
+        if t[0] == 'D':
+            return decimal.Decimal(t[1])
+        raise AssertionError(t)
+    return t
 
 
 def widths(threshold):
@@ -650,14 +674,16 @@ def check_most_common(got, n, per, dec=_same):
 
 class Spec:
     def __init__(self, threshold, mode, nkeys=None, updates=False, depth=None, key_types='str'):
+        self.thr_desc = detuple(threshold)           # JSON-able: a float, ('F', p, q) or ('D', text)
+        threshold = make_threshold(self.thr_desc)
         self.threshold, self.mode, self.nkeys, self.updates, self.depth = threshold, mode, nkeys, updates, depth
         self.key_types = key_types
         self.wf, self.we = widths(threshold)
         self.w_slack = min(self.wf, self.we)     # the more permissive reading where the two differ
-        self.config = {'threshold': threshold, 'search': mode, 'keys': nkeys,
-                       'updates': updates if updates in ('views', 'shapes', 'failing') else bool(updates),
+        self.config = {'threshold': self.thr_desc, 'search': mode, 'keys': nkeys,
+                       'updates': updates if updates in ('views', 'shapes', 'failing', 'directed') else bool(updates),
                        'max_ops': depth, 'w=floor(1/threshold)': self.wf, 'w(exact rational)': self.we,
-                       '2/threshold': 2 / threshold, 'key_types': key_types}
+                       '2/threshold': float(2 / threshold), 'key_types': key_types}
         if key_types == 'str':
             self.enc = self.dec = _same
         else:
@@ -913,8 +939,8 @@ class Spec:
         if type(n) is int and exceeds_bound(n, self.threshold):
             ref = textbook_size((self.wf, self.we), model.stream)
             tags = (SIZE_TAG,) if (exceeds_bound(ref, self.threshold) and n <= ref) else ()
-            bad('invariant', SIZE_SIG, 'len <= 2/threshold = %r' % (2 / self.threshold), n, tags=tags,
-                detail={'threshold': self.threshold, 'w': self.wf, 'additions': model.adds,
+            bad('invariant', SIZE_SIG, 'len <= 2/threshold = %r' % float(2 / self.threshold), n, tags=tags,
+                detail={'threshold': self.thr_desc, 'w': self.wf, 'additions': model.adds,
                         'entries held by textbook Lossy Counting on the same stream': ref})
         self.battery(tc, model, per, slack, bad, second=len(hist) < SECOND_LOOK_OPS)
         return V, True, label
@@ -1091,6 +1117,9 @@ def configs(tier):
             (0.25, A, 3, 'shapes', 4, 'mixed:1'),
             (0.5, A, 3, 'failing', 6), (0.3, A, 3, 'failing', 5), (0.25, A, 3, 'failing', 6),
             (0.001, A, 3, 'failing', 4), (0.34, A, 3, 'failing', 5, 'mixed:4'),
+            # thresholds given as exact rationals (Fraction, Decimal): numbers in (0, 1) like any other
+            (('F', 1, 3), A, 3, True, 4), (('D', '0.5'), A, 3, 'failing', 4), (('F', 2, 9), A, 4, False, 10),
+            (('D', '0.3'), A, 3, 'shapes', 3),
             (0.5, B, None, False, 32), (third, B, None, False, 30), (0.25, B, None, False, 30),
             (0.19, B, None, False, 30), (sixth, B, None, False, 36),
         ]
@@ -1111,11 +1140,157 @@ def configs(tier):
         (0.001, A, 3, 'shapes', 3), (0.25, A, 3, 'shapes', 5, 'mixed:1'), (0.34, A, 4, 'shapes', 4, 'mixed:7'),
         (0.5, A, 3, 'failing', 7), (0.3, A, 3, 'failing', 6), (0.25, A, 3, 'failing', 7), (0.19, A, 3, 'failing', 6),
         (0.001, A, 3, 'failing', 5), (0.34, A, 3, 'failing', 6, 'mixed:4'), (0.25, A, 4, 'failing', 5, 'mixed:9'),
+        (('F', 1, 3), A, 3, True, 5), (('D', '0.5'), A, 3, 'failing', 5), (('F', 2, 9), A, 4, False, 14),
+        (('D', '0.3'), A, 3, 'shapes', 4), (('F', 1, 5), B, None, False, 30),
         (0.5, B, None, False, 40), (0.34, B, None, False, 40), (third, B, None, False, 40), (0.3, B, None, False, 40),
         (0.25, B, None, False, 40), (0.21, B, None, False, 40), (0.19, B, None, False, 40), (0.17, B, None, False, 36),
         (sixth, B, None, False, 38), (0.15, B, None, False, 36), (seventh, B, None, False, 42),
         (0.125, B, None, False, 44),
     ]
+
+
+# ----------------------------------------------------------------------------------------------------
+# directed histories (complete lists, no search): bulk update() calls with many distinct keys, and thresholds with
+# wide buckets given as float / Fraction / Decimal
+
+def fresh(n, tag='n'):
+    return tuple('%s%d' % (tag, i) for i in range(n))
+
+
+def bulk_ops(keys, x):
+    """update() calls handing over the distinct keys `keys` (each once): sources that fail after the last of them,
+    and two that do not fail."""
+    pairs = tuple((k, 1) for k in keys)
+    return [('xg', keys), ('xr', keys), ('xu', keys, (x,), 0), ('xm', pairs, 0), ('xq', pairs),
+            ('xk', keys, ((x, 1),)), ('ul', keys), ('md', pairs), ('ug', keys),
+            ('xm', tuple((k, 2) for k in keys), 1), ('mq', tuple((k, 2) for k in keys))]
+
+
+def bulk_histories(tier):
+    """(threshold, history, index of the first operation to examine): a short prefix, one bulk update() with D
+    distinct new keys (D around the multiples of the bucket width and beyond 2/threshold), then ordinary adds."""
+    out = []
+    quick = tier == 'quick'
+    small = (0.5, 1 / 3, 0.25, 0.19) if quick else (0.5, 0.34, 1 / 3, 0.3, 0.25, 0.19, 1 / 6, 0.125)
+    wide = (0.1, 0.03) if quick else (0.1, 0.03, 0.01, ('F', 1, 64))
+    for thr in small + wide:
+        t = make_threshold(thr)
+        w = min(widths(t))
+        over = int(2 / t) + 1                            # more keys than the bound admits
+        ds = sorted({w - 1, w, w + 1, 2 * w - 1, 2 * w, 2 * w + 1, over, over + 1, 3 * w + 2, 4 * w + 3}
+                    if thr in small else {w + 1, over, over + w + 1})
+        prefixes = [(), ('a',), ('a',) * (w - 1) + ('b',)] if thr in small else [('a', 'a', 'b')]
+        tail = ('a', 'z', 'a')
+        for pre in prefixes:
+            for d in ds:
+                if d < 1:
+                    continue
+                for op in bulk_ops(fresh(d), 'a'):
+                    out.append((thr, pre + (op,) + tail, len(pre)))
+    return out
+
+
+def wide_thresholds(tier):
+    """Thresholds 1/n (and 2/(2n+1): reciprocal n + 1/2) as float, Fraction and - where 1/n is a finite decimal -
+    Decimal, n over a dense range and around powers of 2, 3, 5, 10."""
+    top, cap = (300, 20000) if tier == 'quick' else (1200, 300000)
+    ns = set(range(2, top + 1))
+    for b in (2, 3, 5, 10):
+        p = b
+        while p <= cap:
+            ns.update(x for x in (p - 1, p, p + 1) if x >= 2)
+            p *= b
+    out = []
+    for n in sorted(ns):
+        out.append(('F', 1, n))
+        out.append(1.0 / n)
+        m = n
+        for q in (2, 5):
+            while m % q == 0:
+                m //= q
+        if m == 1:
+            out.append(('D', str(decimal.Decimal(1) / decimal.Decimal(n))))
+        if n <= 64:
+            out.append(('F', 2, 2 * n + 1))
+    return out
+
+
+def wide_histories(tier):
+    """(threshold, history, 0): one rare key, then a hot key through two bucket boundaries, examined at the totals
+    1, w-1, w, w+1, 2w-2, 2w-1, 2w, 2w+1 (the additions in between are made by one update(): list, dict, generator, keyword count in turn)."""
+    out = []
+    for thr in wide_thresholds(tier):
+        for w in sorted(set(widths(make_threshold(thr)))):
+            if w < 2:
+                continue
+            hist, total = [], 0
+
+            def upto(target, key='b'):
+                nonlocal total
+                if target - 1 > total:
+                    n, form = target - 1 - total, (len(out) + len(hist)) % 4
+                    hist.append([('ul', (key,) * n), ('md', ((key, n),)), ('ug', (key,) * n),
+                                 ('kw', (), ((key, n),))][form])
+                    total = target - 1
+                if target > total:
+                    hist.append(key)
+                    total = target
+            upto(1, 'a')
+            upto(w - 1)
+            upto(w)
+            upto(w + 1, 'a')
+            upto(2 * w - 2)
+            upto(2 * w - 1)
+            upto(2 * w)
+            upto(2 * w + 1, 'c')
+            out.append((thr, tuple(hist), 0))
+    return out
+
+
+def run_directed(items):
+    """Each history on the real object, the operations from the given index on examined like a transition of the
+    searches -> (violations, transitions, {label: n})."""
+    V, trans, labels = [], 0, collections.Counter()
+    signal.signal(signal.SIGVTALRM, _on_timer)
+    for thr, hist, start in items:
+        spec = Spec(thr, 'accuracy', None, 'directed', len(hist))
+        for i in range(start, len(hist)):
+            pre, op = tuple(hist[:i]), hist[i]
+            signal.setitimer(signal.ITIMER_VIRTUAL, 2 * STEP_CPU_S)
+            try:
+                tc, model = spec.build(pre)
+                vs, ok, label = spec.step(tc, model, op, pre)
+            except Budget:
+                vs, ok, label = [('C20|op:%s|terminates' % opsig(op), spec.case(pre, op), 'the operation and the reads '
+                                  'return', 'no result after %g s of CPU time' % (2 * STEP_CPU_S), None, ())], False, \
+                    (oplabel(op), 'no result')
+            finally:
+                signal.setitimer(signal.ITIMER_VIRTUAL, 0)
+            trans += 1
+            labels[label] += 1
+            V.extend(vs)
+            if not ok:
+                break
+    return V, trans, labels
+
+
+def directed(ctx):
+    rows = []
+    for family, items in (('bulk-update-with-many-distinct-keys', bulk_histories(ctx.tier)),
+                          ('wide-buckets-float/Fraction/Decimal-thresholds', wide_histories(ctx.tier))):
+        chunks = [items[i::32] for i in range(32) if items[i::32]]
+        trans, labels = 0, collections.Counter()
+        for V, t, lab in core.pmap(run_directed, chunks):
+            trans += t
+            labels.update(lab)
+            for v in V:
+                ctx.violation(*v)
+        rows.append({'family': family, 'histories': len(items), 'transitions_examined': trans,
+                     'thresholds': len({repr(i[0]) for i in items}),
+                     'op_results': {'%s -> %s' % k: n for k, n in sorted(labels.items())},
+                     'sample': core.jsonable(items[len(items) // 2][:2])})
+        ctx.note('directed %s: %d histories, %d transitions examined' % (family, len(items), trans))
+    return rows
 
 
 def run(ctx):
@@ -1126,8 +1301,8 @@ def run(ctx):
         tap = Tap(ctx)
         res = histories.explore(spec, tap, max_depth=depth, chunk=48)
         parts.append((spec.config, res))
-        ctx.note('threshold=%.4g w=%d search=%s keys=%s%s updates=%s: states=%d transitions=%d ops<=%d%s%s'
-                 % (thr, spec.wf, mode, nkeys, '' if spec.key_types == 'str' else ' (%s)' % spec.key_types, upd,
+        ctx.note('threshold=%s w=%d search=%s keys=%s%s updates=%s: states=%d transitions=%d ops<=%d%s%s'
+                 % ('%.4g' % thr if isinstance(thr, float) else repr(spec.threshold), spec.wf, mode, nkeys, '' if spec.key_types == 'str' else ' (%s)' % spec.key_types, upd,
                     res.states, res.transitions, res.depth,
                     ' CAPPED: ' + res.capped if res.capped and not res.capped.startswith('depth') else '',
                     ' size>2/threshold on %d transitions, shortest stream %d' % (tap.size_occ, len(tap.witness[0]))
@@ -1155,6 +1330,11 @@ def run(ctx):
         'fresh keys, state = (total mod w, multiset of count + entry - bucket) read off the real object.'))
     cov['exhaustive'] = all(r.capped is None or r.capped.startswith('depth') for _, r in parts)
     cov['size_bound_searches'] = size_rows
+    rows = directed(ctx)
+    cov['directed_histories'] = rows
+    n = sum(r['transitions_examined'] for r in rows)
+    cov['transitions'] += n
+    cov['traces_validated_against_impl'] += n
     ctx.assumptions += [
         'keys are 1-character strings or (key_types mixed:<r>) the objects %r rotated by r - pairwise unequal, '
         'well-behaved __eq__/__hash__, not orderable against each other; the class may look at keys only through '
@@ -1165,6 +1345,11 @@ def run(ctx):
         'return and total / per-key bounds must hold for the keys fed',
         'floor(1/threshold): where float and exact-rational evaluation differ (0.2, 0.1, 0.001) the smaller width, i.e. '
         'the larger slack, is allowed; a size is a violation only if it exceeds 2/threshold under both evaluations',
+        'a threshold is a number in (0, 1): floats, and the exact rationals fractions.Fraction / decimal.Decimal (accepted '
+        'by the constructor; floor(1/threshold) is evaluated exactly for them); other numeric types are not passed',
+        'directed histories (coverage: directed_histories) are complete lists, not searches: bulk update() calls with D '
+        'distinct new keys (failing and non-failing sources) judged right after the call and after three further adds; '
+        'thresholds 1/n, 2/(2n+1) with wide buckets judged around the first two bucket boundaries',
         'update(mapping) / keyword counts stand for count additions of each key (order immaterial to the oracle); keyword '
         'counts are passed next to an iterable or mapping argument; update(**counts) alone and update(None) are not '
         'explored (the statement does not fix them)',
